@@ -26,6 +26,7 @@ PRIOR = ['zeros', 'chi2', 'signals', 'float32']
 def required(tier):
     b = {f'prior:{k}': 5 for k in PRIOR}
     b['out-of-band-twice'] = 100
+    b['frame-wider-than-2^16-channels'] = 10
     b.update({f'bound:{k}': 5 for k in set(work_sig.BOUND_KINDS)})
     b.update({f'flags:{k}': 1 for k in range(16)})
     b.update({'sequence>=2': 20, 'outside-columns-exist': 50, 'cadence-injection-state': 50, 'derived-sibling-watched': 100, 'noise-estimate-vs-control-frame': 40})
@@ -44,6 +45,24 @@ def gen_cases(seed, tier):
             bk = common.stratum(i + q, 33, work_sig.BOUND_KINDS)
             sigs.append(dict(spec=work_sig.gen_signal(rng, g, i=i + 7 * q), opts=work_sig.gen_opts(rng, i + q),
                              bound_kind=bk, brange=work_sig.gen_bounding(rng, g, bk)))
+        if common.stratum(i, 34, 60 if tier == 'quick' else 400) == 0:
+            # a very wide frame and a bounding range spanning more than 2^16 channels that ends INSIDE the band, with signal power
+            # just on either side of its upper end (a library that works through wide ranges in pieces must stop where asked)
+            F_ = int(rng.integers(70000, 150001))
+            g.update(fchans=F_, tchans=int(rng.integers(1, 4)))
+            if g['fch1'] - F_ * g['df'] < 1e6:
+                g['fch1'] = F_ * g['df'] + 1e8
+            fmin_ = work_sig.axes_of(g)
+            a_ = int(rng.integers(0, 3000))
+            b_ = a_ + 65536 + int(rng.integers(1, F_ - a_ - 65536 - 5))
+            s0_ = dict(spec=work_sig.gen_signal(rng, g, i=i), opts=work_sig.gen_opts(rng, i), bound_kind='inside',
+                       brange=[fmin_ + (a_ + 0.2) * g['df'], fmin_ + (b_ - 0.2) * g['df']])
+            s0_['spec']['path'].update(kind='constant', form='callable', f_start=fmin_ + (b_ + float(rng.uniform(-3, 3))) * g['df'],
+                                       drift=float(rng.normal()) * g['df'] / g['dt'])
+            s0_['spec']['fprof'] = dict(kind='gaussian', width=float(rng.uniform(2, 6)) * g['df'])
+            s0_['spec']['bp'] = {'kind': 'constant', 'level': 1.0, 'cycles': 1.0}
+            s0_['opts'].update(f_subsamples=int(rng.integers(1, 4)), smearing_subsamples=int(rng.integers(1, 4)))
+            sigs = [s0_]
         cases.append(dict(geom=g, sigs=sigs, prior=common.stratum(i, 32, PRIOR), sub=int(rng.integers(2 ** 31))))
     return cases
 
@@ -125,6 +144,8 @@ def run_case(c, R):
     stg = common.import_setigen()
     g = c['geom']
     R.bucket('prior:' + c['prior'])
+    if g['fchans'] > 65536:
+        R.bucket('frame-wider-than-2^16-channels')
     fr = make_prior(stg, g, c['prior'], c['sub'])
     start = fr.data.astype(np.float64).copy()
     rets = []
